@@ -2,7 +2,7 @@
 // canonical line per input line (same protocol as ocaml/c10_driver.ml):
 //   I <opt> <ls> <kind> <n> | A (n*n) | b (n) | x0 (n) | params | lower (n) | upper (n)
 //       opt : SDLS (harness subclass of AbstractLineSearchOptimizer, direction = -gradient), CG, BFGS, LBFGS,
-//             SD (SteepestDescent: params lr mom), ADAM (params eta), RPROP (params freeze backtrack oldvalue initDelta)
+//             SD (SteepestDescent: params lr mom), ADAM (params eta), RPROP (params freeze backtrack oldvalue initDelta [minDelta maxDelta])
 //       ls  : 0 Dlinmin, 1 WolfeCubic, 2 Backtracking (line-search optimisers only; forced to 2 by the library on
 //             constrained objectives)
 //       kind: quad (0.5 x'Ax - b'x), rosen (sum p*(x[i+1]-x[i]^2)^2 + (1-x[i])^2, p = A[0]), boxquad, boxrosen
@@ -141,6 +141,21 @@ C10_ROB(LbYs, LBFGS<RealVector>, std::deque<RealVector>, m_gradientDifferences)
 C10_ROB(LbBdiag, LBFGS<RealVector>, double, m_bdiag)
 C10_ROB(LbHist, LBFGS<RealVector>, unsigned int, m_numHist)
 C10_ROB(LbThres, LBFGS<RealVector>, double, m_updThres)
+C10_ROB(AdAvg, Adam<RealVector>, RealVector, m_avgGrad)
+C10_ROB(AdSec, Adam<RealVector>, RealVector, m_secondMoment)
+C10_ROB(AdCnt, Adam<RealVector>, unsigned int, m_counter)
+C10_ROB(AdDer, Adam<RealVector>, RealVector, m_derivative)
+C10_ROB(RpDelta, Rprop<RealVector>, RealVector, m_delta)
+C10_ROB(RpDeltaw, Rprop<RealVector>, RealVector, m_deltaw)
+C10_ROB(RpOldDer, Rprop<RealVector>, RealVector, m_oldDerivative)
+C10_ROB(RpOldVal, Rprop<RealVector>, double, m_oldValue)
+C10_ROB(RpInc, Rprop<RealVector>, double, m_increaseFactor)
+C10_ROB(RpDec, Rprop<RealVector>, double, m_decreaseFactor)
+C10_ROB(RpMax, Rprop<RealVector>, double, m_maxDelta)
+C10_ROB(RpMin, Rprop<RealVector>, double, m_minDelta)
+C10_ROB(RpFrz, Rprop<RealVector>, bool, m_useFreezing)
+C10_ROB(RpBt, Rprop<RealVector>, bool, m_useBacktracking)
+C10_ROB(RpOv, Rprop<RealVector>, bool, m_useOldValue)
 
 struct PeekBFGS : public BFGS<RealVector> {
 	static RealMatrix const& hessian(BFGS<RealVector> const& o) { return o.*(&PeekBFGS::m_hessian); }
@@ -178,6 +193,7 @@ Opt* make(Config const& c, bool configured) {
 		if (configured && c.params.size() >= 3) {
 			o->setUseFreezing(c.params[0] != 0); o->setUseBacktracking(c.params[1] != 0); o->setUseOldValue(c.params[2] != 0);
 		}
+		if (configured && c.params.size() >= 6) { o->setMinDelta(c.params[4]); o->setMaxDelta(c.params[5]); }
 		return o;
 	}
 	AbstractLineSearchOptimizer<RealVector>* o = 0;
@@ -216,7 +232,7 @@ std::string stateLine(Case& c, Opt& o, bool primary) {
 	  << " " << pre << "feas=" << (c.f->isFeasible(p) ? 1 : 0) << " " << pre << "fin=" << ((finite(p) && std::isfinite(v)) ? 1 : 0);
 	if (primary) c.maxb = std::max(c.maxb, std::max(maxbits(p), sigbits(v)));
 	AbstractLineSearchOptimizer<RealVector>* l = dynamic_cast<AbstractLineSearchOptimizer<RealVector>*>(&o);
-	if (l || dynamic_cast<Rprop<RealVector>*>(&o)) {
+	if (l || dynamic_cast<Rprop<RealVector>*>(&o) || (primary && dynamic_cast<Adam<RealVector>*>(&o))) {
 		RealVector rg; c.f->value(p, &rg);     // gradient re-evaluated at the reported point
 		s << " " << pre << "reder=" << hexv(rg);
 	}
@@ -248,6 +264,19 @@ std::string stateLine(Case& c, Opt& o, bool primary) {
 	}
 	Rprop<RealVector>* r = dynamic_cast<Rprop<RealVector>*>(&o);
 	if (r) s << " " << pre << "der=" << hexv(r->derivative());
+	if (r && primary) {
+		// the complete Rprop state (every archived member)
+		s << " delta=" << hexv((*r).*robGet(RpDelta())) << " deltaw=" << hexv((*r).*robGet(RpDeltaw())) << " oder=" << hexv((*r).*robGet(RpOldDer()))
+		  << " oval=" << hexd((*r).*robGet(RpOldVal())) << " inc=" << hexd((*r).*robGet(RpInc())) << " dec=" << hexd((*r).*robGet(RpDec()))
+		  << " dmax=" << hexd((*r).*robGet(RpMax())) << " dmin=" << hexd((*r).*robGet(RpMin()))
+		  << " frz=" << ((*r).*robGet(RpFrz()) ? 1 : 0) << " bt=" << ((*r).*robGet(RpBt()) ? 1 : 0) << " ov=" << ((*r).*robGet(RpOv()) ? 1 : 0);
+	}
+	Adam<RealVector>* ad = dynamic_cast<Adam<RealVector>*>(&o);
+	if (ad && primary) {
+		// the complete Adam state (every archived member)
+		s << " der=" << hexv((*ad).*robGet(AdDer())) << " m1=" << hexv((*ad).*robGet(AdAvg())) << " m2=" << hexv((*ad).*robGet(AdSec()))
+		  << " cnt=" << (*ad).*robGet(AdCnt()) << " b1=" << hexd(ad->beta1()) << " b2=" << hexd(ad->beta2()) << " eps=" << hexd(ad->epsilon()) << " eta=" << hexd(ad->eta());
+	}
 	return s.str();
 }
 
